@@ -22,23 +22,18 @@ fn replace_options(e: &E) -> E {
     }
 }
 
-fn option_words(g: &Glob) -> String {
-    render::primary_words(&E::G(g.clone()), &mut render::Canon).unwrap().iter().map(|t| t.text.clone()).collect::<Vec<_>>().join(" ")
-}
-
-pub fn judge(leading: &[Glob], tree: &Option<E>, choices: &[u16]) -> Verdict {
-    if let Some(t) = tree {
-        if matches!(t.leaves().first(), Some(E::G(_))) {
-            return Verdict::Skip("expression starts with an option word (that is part of the leading run)");
-        }
+/// The command line of a case: the leading run and the expression, both through the variant
+/// grammar (layout, operator spellings, zero-padded numbers). Second value: a blank next to
+/// punctuation was left out somewhere.
+fn build_text(leading: &[Glob], tree: &Option<E>, choices: &[u16]) -> Option<(String, bool)> {
+    let mut ch = Stream::new(choices, ALL_LAYOUT | Cat::Glue as u32 | Cat::ArgSpell as u32);
+    let mut words: Vec<String> = vec![];
+    for g in leading {
+        words.push(render::primary_words(&E::G(g.clone()), &mut ch)?.iter().map(|t| t.text.clone()).collect::<Vec<_>>().join(" "));
     }
-    if leading.is_empty() && tree.is_none() {
-        return Verdict::Skip("empty input");
-    }
-    let mut ch = Stream::new(choices, ALL_LAYOUT | Cat::Glue as u32);
-    let mut text = leading.iter().map(option_words).collect::<Vec<_>>().join(" ");
+    let mut text = words.join(" ");
     if let Some(t) = tree {
-        let Some(body) = render::variant(t, &mut ch) else { return Verdict::Skip("tree has no text form") };
+        let body = render::variant(t, &mut ch)?;
         if !text.is_empty() {
             // sometimes no blank between the leading run and a '(' or '!' that starts the expression
             let first_punct = body.starts_with('(') || body.starts_with('!');
@@ -50,6 +45,19 @@ pub fn judge(leading: &[Glob], tree: &Option<E>, choices: &[u16]) -> Verdict {
         }
         text.push_str(&body);
     }
+    Some((text, ch.glued))
+}
+
+pub fn judge(leading: &[Glob], tree: &Option<E>, choices: &[u16]) -> Verdict {
+    if let Some(t) = tree {
+        if matches!(t.leaves().first(), Some(E::G(_))) {
+            return Verdict::Skip("expression starts with an option word (that is part of the leading run)");
+        }
+    }
+    if leading.is_empty() && tree.is_none() {
+        return Verdict::Skip("empty input");
+    }
+    let Some((text, glued)) = build_text(leading, tree, choices) else { return Verdict::Skip("tree has no text form") };
     // the model: textual order = leading run, then the leaves of the expression left to right
     let mut all: Vec<Glob> = leading.to_vec();
     if let Some(t) = tree {
@@ -88,7 +96,7 @@ pub fn judge(leading: &[Glob], tree: &Option<E>, choices: &[u16]) -> Verdict {
     }
     let (opts, x) = match parsed {
         Ok(r) => r,
-        Err(_) if ch.glued => return Verdict::Skip("a spelling without blank next to punctuation was rejected (not asserted either way)"),
+        Err(_) if glued => return Verdict::Skip("a spelling without blank next to punctuation was rejected (not asserted either way)"),
         Err(e) => return Verdict::Fail(format!("{text:?} (options {all:?}) rejected: {e}")),
     };
     let got = from_ast(&x);
@@ -152,11 +160,7 @@ pub fn judge(leading: &[Glob], tree: &Option<E>, choices: &[u16]) -> Verdict {
 }
 
 fn case_json(leading: &[Glob], tree: &Option<E>, choices: &[u16]) -> Value {
-    let mut ch = Stream::new(choices, ALL_LAYOUT | Cat::Glue as u32);
-    let mut text = leading.iter().map(option_words).collect::<Vec<_>>().join(" ");
-    if let Some(b) = tree.as_ref().and_then(|t| render::variant(t, &mut ch)) {
-        text = format!("{text} {b}");
-    }
+    let text = build_text(leading, tree, choices).map(|x| x.0).unwrap_or_default();
     json!({"kind": "options", "leading": leading.iter().map(|g| format!("{:?}", E::G(g.clone()))).collect::<Vec<_>>(), "tree": tree.as_ref().map(term::encode_expr), "choices": choices, "input": text.trim()})
 }
 
@@ -209,7 +213,7 @@ pub fn run(ctx: &Ctx) -> Report {
     });
     Report {
         stats: total,
-        rule: "random expressions over the keyword vocabulary in which -depth, -threads N, -maxdepth N, -mindepth N also occur as leaves (middle, inside parentheses, after '!', last), preceded by a leading run of 0..9 options, rendered canonically or through the layout variant grammar. Model: depth = any -depth; threads = value of the last -threads in textual order; expected tree = expression with every option leaf replaced by -true (a leading run leaves it untouched; only options -> -true); no option node in the returned tree; fifth argument of the emitted lipe-scan = N or (lipe-getopt-thread-count). Any -maxdepth/-mindepth: the input must be rejected with an error or the limit must show in the returned options; never a panic, never silently ignored. Non-trivial: an option outside the leading run, or a repeated option. Distinct: by (leading run, tree, layout choices).".into(),
+        rule: "random expressions over the keyword vocabulary in which -depth, -threads N, -maxdepth N, -mindepth N also occur as leaves (middle, inside parentheses, after '!', last), preceded by a leading run of 0..9 options, rendered canonically or through the layout variant grammar (separators, operator spellings, quoting, zero-padded numbers - also in the leading run; three-value pool so that a value returns after being overridden: A, B, A). Model: depth = any -depth; threads = value of the last -threads in textual order; expected tree = expression with every option leaf replaced by -true (a leading run leaves it untouched; only options -> -true); no option node in the returned tree; fifth argument of the emitted lipe-scan = N or (lipe-getopt-thread-count). Any -maxdepth/-mindepth: the input must be rejected with an error or the limit must show in the returned options; never a panic, never silently ignored. Non-trivial: an option outside the leading run, or a repeated option. Distinct: by (leading run, tree, layout choices).".into(),
         assumptions: vec!["an expression whose first word is an option is not generated separately: that word belongs to the leading run by definition".into()],
         exhaustive: false,
     }
